@@ -325,6 +325,11 @@ pub struct Exec {
     pub persisted_at_open: BTreeMap<u8, Option<u64>>,
     /// C15: every reopen uses the other journal compression setting
     pub flip_journal_lz4_on_reopen: bool,
+    /// fault runs: an operation that returns an error is recorded (marker `A i err`) and the
+    /// program continues, so that later operations can be observed (fail-stop oracle)
+    pub tolerant: bool,
+    /// per operation index: did it return an error (tolerant mode)
+    pub op_errors: Vec<(usize, String)>,
 }
 
 fn err(sig: &str, what: &str, e: &fjall::Error) -> Deviation {
@@ -357,6 +362,8 @@ impl Exec {
             wseq: BTreeMap::new(),
             persisted_at_open: BTreeMap::new(),
             flip_journal_lz4_on_reopen: false,
+            tolerant: false,
+            op_errors: Vec::new(),
         }
     }
 
@@ -591,6 +598,15 @@ impl Exec {
         match &r {
             Ok(()) => self.emit_mark(&format!("A {idx} ok")),
             Err(_) => self.emit_mark(&format!("A {idx} err")),
+        }
+        if self.tolerant {
+            if let Err(d) = &r {
+                if d.sig.starts_with("unexpected-error") {
+                    self.op_errors.push((idx, d.detail.clone()));
+                    self.stats.inc("op_errors_tolerated");
+                    return Ok(());
+                }
+            }
         }
         r?;
         if self.filtered && op.is_write() {
